@@ -282,6 +282,8 @@ pub struct Monitor {
     depth_leak: i64,
     /// every address targeted by a call frame in this transaction
     pub addresses_called: BTreeSet<Address>,
+    /// addresses whose balance a program has read (BALANCE operand, SELFBALANCE)
+    pub balance_observed: BTreeSet<Address>,
 }
 
 const MAX_VIOLATIONS: usize = 6;
@@ -322,6 +324,7 @@ impl Monitor {
         self.burned_total = alloy_primitives::U512::ZERO;
         self.ether_touched.clear();
         self.addresses_called.clear();
+        self.balance_observed.clear();
         self.fp = 0x1234_5678;
         // access model: initial set (EIP-2929/2930/3651/7702)
         let spec = ctx.spec.unwrap_or(SpecId::LATEST);
@@ -794,6 +797,16 @@ impl<DB: Database> Inspector<DB> for Monitor {
                     self.inc("probe.static_forbidden_attempt_nested");
                 }
             }
+        }
+        // whose balance the program looks at (a twin that pays the beneficiary differently
+        // legitimately diverges once a program reads the beneficiary's balance)
+        if matches!(opcode, 0x31 | 0x3b | 0x3c | 0x3f) {
+            // (EXTCODEHASH also tells an empty account from a missing one)
+            if let Some(a) = stack_peek(interp, 0) {
+                self.balance_observed.insert(as_addr(a));
+            }
+        } else if opcode == 0x47 {
+            self.balance_observed.insert(me);
         }
         // ---- C30: expected self-destruct notification
         if opcode == 0xff && !interp.is_eof {
